@@ -1134,7 +1134,228 @@ def check_field_lengths(fails_out):
             return
 
 
+def check_batch4(fails_out):
+    """Deterministic families added after the fourth batch of seeded changes.
+    C02 crash inside a commit that MERGES under the default policy (six small segments first, so the policy finds a
+    merge point): aborted at every storage operation, the directory re-opens as exactly the old or the new state.
+    C04 a process forked while a writer is open and still alive after commit()/cancel(): the next writer gets the lock.
+    C07 a document number obtained from an index-level searcher / from reader.iter_docs() names the same document for a
+    writer (delete_document) and for the reader's per-document APIs, over segments of 2, 5 and 9 documents with
+    deletions in an early segment.
+    C08 loose-file (compound=False) segments on disk with stored blobs and column values of 256+ bytes."""
+    import random as _random
+    import time
+    from whoosh import fields, query
+    from whoosh.filedb.filestore import FileStorage
+
+    def F(case, detail):
+        fails_out.append({"case": case, "detail": detail, "corpus": None})
+
+    def small_schema():
+        return fields.Schema(id=fields.ID(unique=True, stored=True), body=fields.TEXT(stored=True))
+
+    def ids_of(path):
+        ix_ = FileStorage(path).open_index()
+        with ix_.searcher() as s_:
+            got = sorted(h["id"] for h in s_.search(query.Every(), limit=None))
+            # every document readable through postings and stored fields
+            for h in s_.search(query.Term("body", u"alfa"), limit=None):
+                h.fields()
+            return got
+
+    # ---- C02: crash at every storage operation of a merging default-policy commit
+    base = tempfile.mkdtemp(prefix="b4_")
+    try:
+        ix = FileStorage(base).create_index(small_schema())
+        old = []
+        for c in range(6):
+            w = ix.writer()
+            for j in range(1 + c % 2):
+                w.add_document(id=u"d%d_%d" % (c, j), body=u"alfa bravo")
+                old.append("d%d_%d" % (c, j))
+            w.commit(merge=False)
+        old.sort()
+        for variant in ("add", "delete"):
+            new = sorted(old + ["n0"]) if variant == "add" else [x for x in old if x != "d0_0"]
+            at, total = 1, None
+            merged = False
+            while total is None or at <= total:
+                work = tempfile.mkdtemp(prefix="b4w_")
+                shutil.rmtree(work)
+                shutil.copytree(base, work)
+                counter = {"n": 0, "log": [], "at": at}
+                st = make_crash_storage(work, counter)
+                crashed = False
+                try:
+                    w = st.open_index().writer()
+                    if variant == "add":
+                        w.add_document(id=u"n0", body=u"alfa charlie")
+                    else:
+                        w.delete_by_term("id", u"d0_0")
+                    w.commit()
+                except Crash:
+                    crashed = True
+                except Exception as e:
+                    F("C02-crash-default-merge", "%s: unexpected %s: %s at operation %d" % (variant, type(e).__name__, e, at))
+                    break
+                if not crashed:
+                    total = counter["n"]
+                    merged = merged or any(x.startswith("delete ") and x.endswith(".seg") for x in counter["log"])
+                try:
+                    got = ids_of(work)
+                    if got != old and got != new:
+                        F("C02-crash-default-merge", "%s + default-policy commit aborted before operation %d (%s): re-opened index has %r"
+                          % (variant, at, counter["log"][-1] if counter["log"] else "?", got))
+                        break
+                except Exception as e:
+                    F("C02-crash-default-merge", "%s + default-policy commit aborted before operation %d (%s): re-opening fails with %s: %s"
+                      % (variant, at, counter["log"][-1] if counter["log"] else "?", type(e).__name__, e))
+                    break
+                finally:
+                    for f_ in counter.get("files", []):
+                        try:
+                            f_.close()
+                        except Exception:
+                            pass
+                    shutil.rmtree(work, ignore_errors=True)
+                at += 1
+            if total is not None and not merged:
+                F("exception/C02-crash-default-merge", "harness: the default policy did not merge any segment (%s)" % variant)
+    finally:
+        shutil.rmtree(base, ignore_errors=True)
+
+    # ---- C04: forked child alive after the writer finished
+    for how in ("commit", "cancel", "with-error"):
+        d = tempfile.mkdtemp(prefix="b4l_")
+        pid = None
+        try:
+            ix = FileStorage(d).create_index(small_schema())
+            w = ix.writer()
+            w.add_document(id=u"a", body=u"alfa")
+            pid = os.fork()
+            if pid == 0:
+                try:
+                    time.sleep(6)
+                finally:
+                    os._exit(0)
+            if how == "commit":
+                w.commit()
+            elif how == "cancel":
+                w.cancel()
+            else:
+                try:
+                    with w:
+                        raise ValueError("boom")
+                except ValueError:
+                    pass
+            try:
+                w2 = ix.writer(timeout=1.0, delay=0.1)
+                w2.cancel()
+            except Exception as e:
+                F("C04-fork-keeps-lock", "a process forked while the writer was open is still alive after %s(): the next writer fails with %s: %s"
+                  % (how, type(e).__name__, e))
+        finally:
+            if pid:
+                try:
+                    os.kill(pid, 9)
+                    os.waitpid(pid, 0)
+                except Exception:
+                    pass
+            shutil.rmtree(d, ignore_errors=True)
+
+    # ---- C07: document numbers agree between searcher / reader / writer
+    d = tempfile.mkdtemp(prefix="b4n_")
+    try:
+        ix = FileStorage(d).create_index(small_schema())
+        n = 0
+        for size in (2, 5, 9):
+            w = ix.writer()
+            for _ in range(size):
+                w.add_document(id=u"k%d" % n, body=u"alfa" if n % 2 else u"bravo")
+                n += 1
+            w.commit(merge=False)
+        w = ix.writer()
+        w.delete_by_term("id", u"k1")
+        w.delete_by_term("id", u"k3")
+        w.commit(merge=False)
+        live = set("k%d" % i for i in range(n)) - {"k1", "k3"}
+        with ix.reader() as r:
+            seen = []
+            for docnum, stored in r.iter_docs():
+                seen.append(stored["id"])
+                if r.is_deleted(docnum) or r.stored_fields(docnum) != stored:
+                    F("C07-iter_docs-docnum", "iter_docs() yields number %d with %r; is_deleted=%r stored_fields(%d)=%r"
+                      % (docnum, stored, r.is_deleted(docnum), docnum, None if r.is_deleted(docnum) else r.stored_fields(docnum)))
+                    break
+            if sorted(seen) != sorted(live):
+                F("C07-iter_docs-docnum", "iter_docs() lists %r, live documents are %r" % (sorted(seen), sorted(live)))
+        for victim in ("k0", "k4", "k8", "k15"):
+            with ix.searcher() as s_:
+                dn = s_.document_number(id=victim)
+            w = ix.writer()
+            w.delete_document(dn)
+            w.commit(merge=False)
+            live.discard(victim)
+            with ix.searcher() as s_:
+                got = set(h["id"] for h in s_.search(query.Every(), limit=None))
+            if got != live:
+                F("C07-docnum-searcher-to-writer", "delete_document(searcher.document_number(id=%r)): live documents now %r, expected %r"
+                  % (victim, sorted(got), sorted(live)))
+                break
+        with ix.reader() as r:
+            pick = [(dn, st_["id"]) for dn, st_ in r.iter_docs() if st_["id"] in ("k6", "k12")]
+        for dn, vid in pick:
+            w = ix.writer()
+            w.delete_document(dn)
+            w.commit(merge=False)
+            live.discard(vid)
+        with ix.searcher() as s_:
+            got = set(h["id"] for h in s_.search(query.Every(), limit=None))
+        if got != live:
+            F("C07-docnum-iter_docs-to-writer", "delete_document(number from iter_docs): live documents %r, expected %r" % (sorted(got), sorted(live)))
+    finally:
+        shutil.rmtree(d, ignore_errors=True)
+
+    # ---- C08: loose-file segments with large values
+    d = tempfile.mkdtemp(prefix="b4c_")
+    try:
+        rnd = _random.Random(8)
+        sch = fields.Schema(id=fields.ID(stored=True), blob=fields.STORED, tag=fields.ID(sortable=True))
+        ix = FileStorage(d).create_index(sch)
+        model = {}
+        for part in range(2):
+            w = ix.writer(compound=False)
+            for i in range(6):
+                key = u"p%d_%d" % (part, i)
+                blob = "".join(chr(rnd.randrange(33, 0x2000)) for _ in range(40 if i % 3 else 1500))
+                tag = u"t" + u"".join(rnd.choice(u"abcdefgh") for _ in range(3 if i % 2 else 700))
+                w.add_document(id=key, blob=blob, tag=tag)
+                model[key] = (blob, tag)
+            w.commit(merge=False)
+        for phase in ("loose", "optimized"):
+            if phase == "optimized":
+                w = ix.writer(compound=False)
+                w.commit(optimize=True)
+            ix2 = FileStorage(d).open_index()
+            with ix2.searcher() as s_:
+                r = s_.reader()
+                cr = r.column_reader("tag")
+                for docnum, stored in r.iter_docs():
+                    want = model.get(stored.get("id"))
+                    if want is None or stored.get("blob") != want[0] or cr[docnum] != want[1]:
+                        F("C08-loose-files-large-values", "%s segments (compound=False): document %r reads blob of %d chars / tag of %d chars, written %s"
+                          % (phase, stored.get("id"), len(stored.get("blob") or ""), len(cr[docnum] or ""), want and (len(want[0]), len(want[1]))))
+                        break
+                if r.doc_count() != len(model):
+                    F("C08-loose-files-large-values", "%s: %d documents instead of %d" % (phase, r.doc_count(), len(model)))
+    except Exception as e:
+        F("C08-loose-files-large-values", "exception %s: %s | %s" % (type(e).__name__, e, traceback.format_exc()[-300:]))
+    finally:
+        shutil.rmtree(d, ignore_errors=True)
+
+
 def run_deterministic(fails):
+    check_batch4(fails)
     check_field_lengths(fails)
     check_typed_columns(fails)
     check_mpwriter(fails)
